@@ -117,7 +117,38 @@ func backupTrace(en *Env, cfg h.Cfg, merges bool) int {
 			en.Drop(kept)
 		}
 	}()
+	// several backups requested at the same instant (no writer is active): each copy must open to the model
+	simultaneous := func() {
+		const k = 3
+		dirs := make([]string, k)
+		names := make([]string, k)
+		var wg sync.WaitGroup
+		start := make(chan struct{})
+		for i := 0; i < k; i++ {
+			dirs[i] = en.FreshDir()
+			wg.Add(1)
+			go func(i int) {
+				defer wg.Done()
+				<-start
+				names[i] = h.Guard(h.CallTimeout, func() error { return e.DB.Backup(dirs[i]) })
+			}(i)
+		}
+		close(start)
+		wg.Wait()
+		for i := 0; i < k; i++ {
+			e.T.Emit(h.Ev{"ev": "op", "op": "Backup", "k": 0, "v": 0, "n": 0, "a": 1, "res": 0, "err": names[i]})
+			backups++
+		}
+		for i := 0; i < k; i++ {
+			h.WithoutCapture(func() { dumpCopy(e, dirs[i], cfg) })
+			en.Drop(dirs[i])
+		}
+		e.Dump()
+	}
 	for i := 0; i < ops && !e.Dead; i++ {
+		if i == 5 && cfg.IO == "mmap" && !merges && e.DB != nil && e.DB.Stat().DataFileNum <= 3 {
+			simultaneous() // (early, while the source is small: see the note at the end of the trace)
+		}
 		k := 1 + r.Intn(nkeys)
 		switch c := r.Intn(100); {
 		case c < 35:
@@ -241,32 +272,10 @@ func backupTrace(en *Env, cfg h.Cfg, merges bool) int {
 		}
 	}
 	// several backups requested at the same instant (no writer is active): each copy must open to the model
-	if !e.Dead && e.DB != nil && !(cfg.IO == "mmap" && merges) {
-		const k = 3
-		dirs := make([]string, k)
-		names := make([]string, k)
-		var wg sync.WaitGroup
-		start := make(chan struct{})
-		for i := 0; i < k; i++ {
-			dirs[i] = en.FreshDir()
-			wg.Add(1)
-			go func(i int) {
-				defer wg.Done()
-				<-start
-				names[i] = h.Guard(h.CallTimeout, func() error { return e.DB.Backup(dirs[i]) })
-			}(i)
-		}
-		close(start)
-		wg.Wait()
-		for i := 0; i < k; i++ {
-			e.T.Emit(h.Ev{"ev": "op", "op": "Backup", "k": 0, "v": 0, "n": 0, "a": 1, "res": 0, "err": names[i]})
-			backups++
-		}
-		for i := 0; i < k; i++ {
-			h.WithoutCapture(func() { dumpCopy(e, dirs[i], cfg) })
-			en.Drop(dirs[i])
-		}
-		e.Dump()
+	// (under mmap only while the source has few files: a defective Backup may copy every file at its mapped size of
+	// 512 MiB, and three such copies of many files exhaust the scratch space before anything is recorded)
+	if !e.Dead && e.DB != nil && !(cfg.IO == "mmap" && (merges || e.DB.Stat().DataFileNum > 3)) {
+		simultaneous()
 	}
 	if !e.Dead && e.DB != nil {
 		if e.Close() == "ok" && e.Open(cfg) == "ok" {
